@@ -521,6 +521,10 @@ func (s *State) Import(state types.AppState, version string) error {
 		}
 	}
 
+	for _, haltBlock := range state.HaltBlocks {
+		s.Halts.AddHaltBlock(haltBlock.Height, haltBlock.CandidateKey)
+	}
+
 	return nil
 }
 
